@@ -222,6 +222,51 @@ def check_function(G, ctx, name, f, args, in_axes, axis_size):
     ctx.count("fn:" + name)
 
 
+def event_shaped_families(G, ctx):
+    """families whose parameters have EVENT dimensions of different rank (multivariate_normal: vector loc, matrix covariance;
+    multinomial: scalar count, vector probs) under a map: lane i is one draw of that lane's parameters, shape (N, event)"""
+    import jax.numpy as jnp
+    import jax.random as jr
+    import genjax.distributions as D
+    N = 4
+    locs = jnp.stack([jnp.array([10.0 * i, -10.0 * i]) for i in range(N)])
+    cov = jnp.array([[1.0, 0.3], [0.3, 0.5]]) * 1e-4
+    covs = jnp.stack([cov * (i + 1) for i in range(N)])
+    cases = [
+        ("mvn(mapped loc, shared cov)", lambda l: D.multivariate_normal.sample(l, cov), (0,), (locs,), locs),
+        ("mvn(mapped loc, mapped cov)", lambda l, c: D.multivariate_normal.sample(l, c), (0, 0), (locs, covs), locs),
+        ("mvn(shared loc, mapped cov)", lambda c: D.multivariate_normal.sample(locs[1], c), (0,), (covs,), jnp.stack([locs[1]] * N)),
+    ]
+    for name, f, ia, args, centre in cases:
+        case = {"kind": "event-shaped-family", "site": name}
+        try:
+            out = np.asarray(G.seed(G.modular_vmap(f, in_axes=ia))(jr.key(7), *args))
+            if out.shape != (N, 2):
+                ctx.property_failure(None, f"{name}: result shape {out.shape}, one draw per lane has shape {(N, 2)}", {**case, "shape": list(out.shape)})
+            elif not np.allclose(out, np.asarray(centre), atol=0.5):
+                ctx.property_failure(None, f"{name}: lane i is not drawn around lane i's location", {**case, "values": out.tolist()})
+        except Exception as ex:
+            impl.reset_handlers()
+            ctx.property_failure(None, f"{name} raised {type(ex).__name__}: {str(ex)[:160]}", case)
+        ctx.case(sample=case, nontrivial_key=("event-family", name))
+        ctx.count("event-shaped-family")
+    # the same through the Vmap combinator: choices (N, 2), scalar score = sum of per-lane scores
+    @G.gen
+    def m(l, c):
+        return D.multivariate_normal(l, c) @ "x"
+    case = {"kind": "event-shaped-family", "site": "Vmap(mvn model)"}
+    try:
+        tr = G.seed(m.vmap(in_axes=(0, 0)).simulate)(jr.key(8), locs, covs)
+        x = np.asarray(tr.get_choices()["x"])
+        lanes = sum(float(m.assess({"x": x[i]}, locs[i], covs[i])[0]) for i in range(N)) if x.shape == (N, 2) else float("nan")
+        if x.shape != (N, 2) or np.shape(tr.get_score()) != () or not abs(float(tr.get_score()) + lanes) <= 1e-3 * (1 + abs(lanes)):
+            ctx.property_failure(None, f"Vmap of a multivariate_normal model: choices shape {x.shape}, score {np.asarray(tr.get_score()).tolist()} vs -(sum of per-lane densities) {-lanes}", case)
+    except Exception as ex:
+        impl.reset_handlers()
+        ctx.property_failure(None, f"Vmap(mvn model) raised {type(ex).__name__}: {str(ex)[:160]}", case)
+    ctx.case(sample=case, nontrivial_key=("event-family", "vmap-model"))
+
+
 def independence(G, ctx):
     """every sampling site yields one independent draw per lane - never one draw broadcast"""
     import jax
@@ -747,6 +792,7 @@ def run(ctx, audit):
         for args, ia, asz in cases:
             check_function(G, ctx, name, f, args, ia, asz)
     independence(G, ctx)
+    event_shaped_families(G, ctx)
     combinator(G, ctx)
     layout_model(G, ctx)
     rule_model(G, ctx)
